@@ -316,7 +316,7 @@ func faultBody(r *explore.Run, rep *report.R, sc string, cases []icase, reads bo
 	pre := snapshot(s)
 	r.Logf("initial store %s (%d objects; %s; packages %s); init %s", ic.name, len(pre.keys), describeSecrets(pre), describePackages(pre), ic.cfg)
 
-	inj := &xrh.FaultInjector{Run: r, Reads: reads}
+	inj := &xrh.FaultInjector{Run: r, Reads: reads, NotFoundReads: true}
 	if !reads {
 		// Quick tier: of the 17 CRD applies (identical code path, one call
 		// pair each) only the first, a middle one and the conversion-webhook
